@@ -13,7 +13,23 @@ pub struct C05;
 pub fn check_annotated(text: &str, expected: Option<&M>, what: &str) {
     sem::front_end(text, |f| match f {
         FrontEnd::Panic { stage, message } => violation(&format!("{stage}-panic"), text, "accepted", &format!("panic: {message}")),
-        FrontEnd::Rejected { order_only: true, .. } => count!("rejected_by_definition_order_check"),
+        FrontEnd::Rejected { order_only: true, messages, .. } => {
+            // The definition-order check may reject a well-typed program, but only one that really
+            // breaks the rule (some non-value definition depends on a definition that is not evaluated
+            // before it), as judged by the reference model of the rule on the source read by the
+            // grammar model.
+            let g = crate::model::grammar::Grammar::load();
+            let breaks_rule = surface::parse_text(&g, text).and_then(|s| surface::resolve(&s, &[]).ok()).map(|m| sem::order_rule_violated(&m));
+            match breaks_rule {
+                Some(false) => violation(
+                    "rejected-by-definition-order-check-without-cause",
+                    text,
+                    &format!("accepted ({what}): every definition a non-value definition depends on is evaluated before it"),
+                    &crate::infra::clip(&messages.join(" | "), 600),
+                ),
+                _ => count!("rejected_by_definition_order_check"),
+            }
+        }
         FrontEnd::Rejected { stage, messages, .. } => violation(
             "well-typed-annotated-program-rejected",
             text,
@@ -126,6 +142,7 @@ fn alias_sweep(max_k: usize) -> Sweep {
 }
 
 fn nested_sweep() -> Sweep {
+    let g = crate::model::grammar::Grammar::load();
     let fam = Rc::new(sem::nested_family());
     let f2 = fam.clone();
     let f3 = fam.clone();
@@ -135,13 +152,11 @@ fn nested_sweep() -> Sweep {
         move |idx| {
             let text = &fam[idx as usize];
             count!("evaluations");
-            // cross-examine the family with the reference checker
-            let ok = crate::bind::with_front(text, &[], 2, |f| match f {
-                crate::bind::Front::TypeErr { term, .. } | crate::bind::Front::Ok { term, .. } => {
-                    matches!(sem::reference_check(&crate::model::mterm::mirror(term), Some(&M::Int)), RefVerdict::WellTyped)
-                }
-                _ => false,
-            });
+            // cross-examine the family with the reference checker, on the program as read by the grammar
+            // model and the scope model (not by gram's parser)
+            let ok = surface::parse_text(&g, text)
+                .and_then(|s| surface::resolve(&s, &[]).ok())
+                .is_some_and(|m| matches!(sem::reference_check(&m, Some(&M::Int)), RefVerdict::WellTyped));
             if !ok {
                 count!("generator_rejected_by_reference");
                 return;
